@@ -29,12 +29,19 @@ fn e1_evidence(rep: &mut Report, results: &[(u32, e1::E1Result, Option<(usize, b
 }
 
 fn run_e1_all(cx: &Ctx, rep: &mut Report, oracles: Oracles, probes: &[Probe], depth: usize, history: bool, with_sr: bool) {
+    run_e1_seeds(cx, rep, oracles, probes, depth, history, with_sr, true)
+}
+
+#[allow(clippy::too_many_arguments)]
+fn run_e1_seeds(cx: &Ctx, rep: &mut Report, oracles: Oracles, probes: &[Probe], depth: usize, history: bool, with_sr: bool, rare_seeds: bool) {
     let base_seeds = alpha::seeds(cx.tier, cx.seed);
     let mut results = Vec::new();
     for api in APIS {
         // model-selected seeds whose t = A s1 + s2 wraps around q join the seed alphabet
         let mut seeds = base_seeds.clone();
-        seeds.extend(rare_keygen_seeds(api.p, cx.seed, rare_cap(cx.tier)).into_iter().map(|(_, s)| s));
+        if rare_seeds {
+            seeds.extend(rare_keygen_seeds(api.p, cx.seed, rare_cap(cx.tier)).into_iter().map(|(_, s)| s));
+        }
         let cfg = E1Cfg { depth, seeds: seeds.clone(), oracles, probes, history_check: history };
         let r = e1::run(api, &cfg, rep);
         // stateright cross-check of the state graph (same transition function, independent explorer)
@@ -192,7 +199,8 @@ pub fn c03(cx: &Ctx, rep: &mut Report) {
     rep.rule = "byte equality of signatures with reference Sign over sets x sk source {generated (E1 states, incl. every round-trip/clone path), imported valid extremal encodings} x MSG x CTX(<=255) x 5 entry points x RND; history independence (battery replayed in reverse after interleaving other calls); one 32-byte RNG request per call. Non-trivial = HashML-DSA or internal mode, or non-empty context, or extremal imported key (the suite pins one pure-mode signature with empty context).".into();
     let probes = alpha::probes(cx.tier, cx.seed, &refmodel::ALL_MODES);
     let depth = cx.tier.pick(2, 4);
-    run_e1_all(cx, rep, Oracles { c03: true, ..Default::default() }, &probes, depth, true, false);
+    // the key-generation corner seeds matter for keygen / derivation (C01, C04, C09, C11), not for the signing function of a fixed key
+    run_e1_seeds(cx, rep, Oracles { c03: true, ..Default::default() }, &probes, depth, true, false, cx.tier == Tier::Thorough);
     let nt = probes.iter().filter(|p| p.mode != Mode::Pure || !p.ctx.is_empty()).count() as u64;
     rep.nontrivial_by_construction(nt * 3 * alpha::seeds(cx.tier, cx.seed).len() as u64);
     for pr in probes.iter().step_by(probes.len() / 3 + 1) {
